@@ -11,7 +11,7 @@ sh(f"git -C /repo worktree list | grep -q {REPO} || git -C /repo worktree add -q
 sh("git reset -q --hard; git checkout -q --detach $(git -C /repo rev-parse HEAD)", cwd=REPO)
 ids = sys.argv[1:] or sorted(os.path.basename(d) for d in glob.glob("/verif/benign/C*"))
 out = {}
-mp = "/verif/benign/MATRIX.json"
+mp = os.environ.get("MATRIX_OUT", "/verif/benign/MATRIX.json")
 if os.path.exists(mp): out = json.load(open(mp))
 for bid in ids:
     d = f"/verif/benign/{bid}"
